@@ -613,13 +613,17 @@ func getReferenceModificationsFromColumn(dbModel *model.DatabaseModel, table, uu
 		}
 		return getReferenceModificationsFromSet(dbModel, table, uuid, column, v, oldSet)
 	case ovsdb.OvsMap:
-		return getReferenceModificationsFromMap(dbModel, table, uuid, column, v)
+		var oldMap ovsdb.OvsMap
+		if old != nil {
+			oldMap = old.(ovsdb.OvsMap)
+		}
+		return getReferenceModificationsFromMap(dbModel, table, uuid, column, v, oldMap)
 	}
 	return nil
 }
 
-func getReferenceModificationsFromMap(dbModel *model.DatabaseModel, table, uuid, column string, value ovsdb.OvsMap) database.References {
-	if len(value.GoMap) == 0 {
+func getReferenceModificationsFromMap(dbModel *model.DatabaseModel, table, uuid, column string, modify, old ovsdb.OvsMap) database.References {
+	if len(modify.GoMap) == 0 {
 		return nil
 	}
 
@@ -630,32 +634,65 @@ func getReferenceModificationsFromMap(dbModel *model.DatabaseModel, table, uuid,
 		return nil
 	}
 
+	// A row references another row at most once from a given location, no
+	// matter how many map entries point to it, and a modification can replace
+	// the value of an existing key. So rather than looking at the modification
+	// alone, compare the rows referenced before the modification with the rows
+	// referenced after it: the difference is made of the rows that differ.
+	updated := make(map[interface{}]interface{}, len(old.GoMap)+len(modify.GoMap))
+	for k, v := range old.GoMap {
+		updated[k] = v
+	}
+	for k, v := range modify.GoMap {
+		if ov, ok := updated[k]; ok && ov == v {
+			delete(updated, k)
+			continue
+		}
+		updated[k] = v
+	}
+
 	from := uuid
 	keySpec := database.ReferenceSpec{ToTable: keyRefTable, FromTable: table, FromColumn: column, FromValue: false}
 	valueSpec := database.ReferenceSpec{ToTable: valueRefTable, FromTable: table, FromColumn: column, FromValue: true}
 
+	referenced := func(m map[interface{}]interface{}, onValue bool) map[string]bool {
+		uuids := map[string]bool{}
+		for k, v := range m {
+			to := k
+			if onValue {
+				to = v
+			}
+			if to, ok := to.(ovsdb.UUID); ok {
+				uuids[to.GoUUID] = true
+			}
+		}
+		return uuids
+	}
+
 	refs := database.References{}
-	for k, v := range value.GoMap {
-		if keyRefTable != "" {
-			switch to := k.(type) {
-			case ovsdb.UUID:
-				if _, ok := refs[keySpec]; !ok {
-					refs[keySpec] = database.Reference{to.GoUUID: []string{from}}
-				} else if _, ok := refs[keySpec][to.GoUUID]; !ok {
-					refs[keySpec][to.GoUUID] = append(refs[keySpec][to.GoUUID], from)
+	addDifference := func(spec database.ReferenceSpec, before, after map[string]bool) {
+		for to := range before {
+			if !after[to] {
+				if _, ok := refs[spec]; !ok {
+					refs[spec] = database.Reference{}
 				}
+				refs[spec][to] = []string{from}
 			}
 		}
-		if valueRefTable != "" {
-			switch to := v.(type) {
-			case ovsdb.UUID:
-				if _, ok := refs[valueSpec]; !ok {
-					refs[valueSpec] = database.Reference{to.GoUUID: []string{from}}
-				} else if _, ok := refs[valueSpec][to.GoUUID]; !ok {
-					refs[valueSpec][to.GoUUID] = append(refs[valueSpec][to.GoUUID], from)
+		for to := range after {
+			if !before[to] {
+				if _, ok := refs[spec]; !ok {
+					refs[spec] = database.Reference{}
 				}
+				refs[spec][to] = []string{from}
 			}
 		}
+	}
+	if keyRefTable != "" {
+		addDifference(keySpec, referenced(old.GoMap, false), referenced(updated, false))
+	}
+	if valueRefTable != "" {
+		addDifference(valueSpec, referenced(old.GoMap, true), referenced(updated, true))
 	}
 
 	return refs
